@@ -91,7 +91,11 @@ def gen_case(rng):
         other = v.size // n
         c["minvalid"] = None if nd == 1 else rng.choice([None] + list(range(0, other + 1)))
     elif what == 'fillna':
-        c["val"] = rng.choice([0, -99.5, 7])
+        c["val"] = rng.choice([0, -99.5, 7, 0.1, 1e-3])
+        if dt == 'f' and rng.random() < 0.3:
+            # single precision data: the cells are still replaced by the given value (0.1 is not a float32), the others keep theirs
+            sp["values"] = sp["values"].astype(np.float32)
+            c["a"] = sp
         c["inplace"] = rng.random() < 0.5
     elif what == 'setna':
         cands = [x for x in v.ravel().tolist() if x == x] or [1.0]
@@ -183,7 +187,7 @@ def check(case, ctx):
         label = "a.fillna(%r, inplace=%r)" % (val, inplace) + base
         before_axes = tuple(monitors.snap_axis(ax) for ax in a.axes)
         res, exc = ctx.call(label, lambda: a.fillna(val, inplace=inplace), operands=(a,), mutates=(a,) if inplace else (), meta=None if inplace else 'carry', ambient=True)
-        e = v.copy()
+        e = v.copy() if v.dtype != np.float32 else v.astype(np.float64)
         if v.dtype.kind == 'f':
             e[np.isnan(v)] = val
         tgt = a if inplace else res
